@@ -47,9 +47,10 @@ def build(tier):
             src += hgen.cond(name, tp + ", a1: int", pre, f"L.server_triple(a, af, ad, adg, f, {vi}, a1, {a2 or 0})", sig="hb.KEY")
             conds += [Cond(name, "prop", T, group="server"), Cond(name + "__twin", "twin", 90, group="server")]
     ns = len(L.SEQ_OPS)
-    for i0 in (range(ns) if not q else (1, 3, 4)):
+    for i0 in (range(ns) if not q else (1, 4)):
         name = f"server_seq_{i0}"
-        src += hgen.cond(name, "i1: int, i2: int", [f"0 <= i1 < {ns} and 0 <= i2 < {ns}"] + (["i2 in (2, 3, 7)"] if q else []), f"L.server_seq({i0}, i1, i2)", sig="hb.KEY")
+        # about 10 CPU-s per path (three backends x a 7-command session): the quick tier keeps 8 histories per first operation
+        src += hgen.cond(name, "i1: int, i2: int", [f"0 <= i1 < {ns} and 0 <= i2 < {ns}"] + (["i2 in (2, 3)", "i1 in (0, 1, 4, 5)"] if q else []), f"L.server_seq({i0}, i1, i2)", sig="hb.KEY")
         conds += [Cond(name, "prop", T, group="server-seq"), Cond(name + "__twin", "twin", 90, group="server-seq")]
     src += "\nL.server_seq(1, 2, 3)\nL.api_pair(2, 1, 2, 1, 1, 17, 0, 7); L.api_pair(2, 1, 2, 1, 1, 13, 1, 0); L.server_triple(2, 1, 2, 1, 1, 10, 7, 0); L.server_triple(2, 1, 2, 0, 1, 4, 1, 8)\n"
     return Spec(
@@ -60,7 +61,7 @@ def build(tier):
             "tree": "universe /a, /a/f, /a/d, /a/d/g, /f each absent / file / directory (consistent with its parents; 51 trees), two file contents" + (" (quick: /f is a file; behind the server /a is a directory, /a/f absent or a file, /a/d absent or a directory, /a/d/g absent or a file: 6 trees)" if q else ""),
             "backend API (PathIO vs AsyncPathIO over ModelPath)": f"one operation of {L.OPS} with arguments from {L.ARGS} (rename: both arguments)",
             "behind the server (MemoryPathIO vs PathIO vs AsyncPathIO)": f"one client-visible operation of {[v for v in L.VERBS if (not q or v in quick_verbs)]} (REST at 3 and beyond the end, 3-byte upload) with arguments from the same universe",
-            "histories behind the server": f"3 operations on one file from {L.SEQ_OPS} (restart upload into the middle, append, partial download ... each transfer on a fresh data connection)" + (" (quick: first in {REST+STOR, RETR, REST+RETR}, third in {APPE, RETR, REST+APPE})" if q else ""),
+            "histories behind the server": f"3 operations on one file from {L.SEQ_OPS} (restart upload into the middle, append, partial download ... each transfer on a fresh data connection)" + (" (quick: first in {REST 3+STOR, REST 3+RETR}, second in {STOR, REST 3+STOR, REST 3+RETR, REST 12+STOR}, third in {APPE, RETR})" if q else ""),
             "reference model": "ModelFS/ModelPath validated against the real filesystem through the real PathIO on every (tree, operation, argument) of the one-step universe at the start of every run",
         },
         outside=["the real filesystem on sequences longer than one step (a statement about the kernel, reached only through system calls: not encodable)", "thread interleavings of AsyncPathIO's executor (the stubbed executor runs the function at the next loop iteration)",
